@@ -232,6 +232,7 @@ func DistMatrix(al align.Alignment, weights []float64, model DistModel, range1Mi
 						}
 						verifhook.At("dm.w.err", sp.i, sp.j)
 						mux.Unlock()
+						verifhook.At("dm.w.unlock", sp.i, sp.j)
 						continue
 					}
 					outmatrix[sp.i][sp.j] = d
@@ -245,6 +246,7 @@ func DistMatrix(al align.Alignment, weights []float64, model DistModel, range1Mi
 						max = outmatrix[sp.i][sp.j]
 					}
 					mux.Unlock()
+					verifhook.At("dm.w.unlock", sp.i, sp.j)
 				}
 			}
 		}()
